@@ -42,8 +42,11 @@ def main(argv=None):
     else:
       mod.run(res)
   except MachineryError as e:
-    print('MACHINERY-FAILURE: property=%s %s' % (prop, e))
-    return 2
+    if not res.violations:
+      print('MACHINERY-FAILURE: property=%s %s' % (prop, e))
+      return 2
+    # violations already found are a verdict; a vacuity guard tripping afterwards must not mask them
+    print('note: %s (raised after %d violation(s) had been found)' % (e, len(res.violations)))
   except Exception:  # pylint: disable=broad-except
     traceback.print_exc()
     print('MACHINERY-FAILURE: property=%s unexpected harness exception' % prop)
